@@ -1,10 +1,66 @@
-(* C18 -- a Future's functor runs once and every getter sees its result.  Statements only (work in progress). *)
+(* C18 -- a Future's functor runs once and every getter sees its result.
+   Statements only.  Model: Model/FutureModel.v (one step = one atomic access / futex call of FutureImplBase and the
+   CompletionEventImpl it embeds; any number of threads; any programs over run / wait / get / wait_for / wait_until /
+   is_ready / copy / drop / then / task-set wait; any schedule; compare_exchange_weak may fail spuriously (spur);
+   timed futex waits may time out (timeouts)).  Tie: lockstep under harness/vsched.h (props/C18.py).
+   wf_init B c ds: every thread only uses handles (and the OnceFunction) it holds, refCount_ starts at
+   (#handles + 1 for the OnceFunction) >= 1, the functor's value tag is non-zero, and fewer than 2^32 references can
+   ever exist (B bounds initial references + all copy/then operations in the programs; refCount_ is a uint32). *)
 From Coq Require Import ZArith List Bool.
-From DV Require Import Base.MachInt Base.Sched Model.FutureModel.
+From DV Require Import Base.MachInt Base.Sched Model.FutureModel Proofs.C18Proofs.
 Import ListNotations.
 Local Open Scope Z_scope.
 
+(* exactly one thread wins NotStarted->Running; the functor executes once:
+   (#functor executions so far) + (#threads that won the CAS and are about to execute it) = [status <> NotStarted],
+   hence never more than one winner and one execution; exactly one thread is between the CAS and the Ready store iff
+   status = Running; Ready implies the functor has executed (once) and the cell holds its result. *)
+Theorem C18_functor_runs_once : forall B c ds s, wf_init B c ds -> reach step (init c ds) s ->
+  fcount (sh s) + zsum inf (threads s) = (if word (sh s) =? kNotStarted then 0 else 1) /\
+  0 <= fcount (sh s) <= 1 /\
+  zsum win (threads s) = (if word (sh s) =? kRunning then 1 else 0) /\
+  (word (sh s) = kReady -> fcount (sh s) = 1 /\ cell (sh s) = val c).
+Proof. exact functor_runs_once. Qed.
+Print Assumptions C18_functor_runs_once.
+
+(* a get reads the result only after Ready was stored and returns the unique stored result / rethrows the stored
+   exception (bad_get is the sticky monitor set by a result read with status <> Ready or an unwritten cell) *)
+Theorem C18_get_after_ready : forall B c ds s, wf_init B c ds -> reach step (init c ds) s ->
+  bad_get (sh s) = false /\
+  (forall th tag v, In th (threads s) -> In (tag, v) (res th) -> tag = r_get \/ tag = r_getx -> v = val c) /\
+  (forall th, In th (threads s) -> tpc th = PGetResult -> word (sh s) = kReady /\ cell (sh s) = val c).
+Proof. exact get_after_ready. Qed.
+Print Assumptions C18_get_after_ready.
+
+(* no step touches the impl after the dealloc step (bad_touch is the sticky monitor set by any non-start step with
+   freed > 0); dealloc happens at most once and exactly when the last reference is released;
+   refCount = #live handles + [OnceFunction not yet released] (+ the copies captured by continuations);
+   every thread that is inside an operation holds a counted reference and the impl is not freed *)
+Theorem C18_refcount_safe : forall B c ds s, wf_init B c ds -> reach step (init c ds) s ->
+  bad_touch (sh s) = false /\
+  freed (sh s) = (if refc (sh s) =? 0 then 1 else 0) /\
+  refc (sh s) = orphan c + conts (sh s) + zsum own (threads s) /\
+  (forall th, In th (threads s) -> 0 <= hnd th /\ (tok th = 0 \/ tok th = 1) /\
+       (tpc th <> PStart -> tpc th <> PDone -> 1 <= own th /\ freed (sh s) = 0)).
+Proof. exact refcount_safe. Qed.
+Print Assumptions C18_refcount_safe.
+
+(* the whole inductive invariant, for reuse (C19) *)
+Theorem C18_invariant : forall B c ds s, wf_init B c ds -> reach step (init c ds) s -> Inv18 B s.
+Proof. exact inv18_reach. Qed.
+Print Assumptions C18_invariant.
+
+(* every state the executable scheduler visits is reachable, so the theorems apply to the runs compared with the real code *)
 Theorem C18_run_reach : forall fuel c ds sched,
   reach step (init c ds) (fst (fst (run_future fuel c ds sched))).
 Proof. intros. apply run_reach. apply reach_refl. Qed.
 Print Assumptions C18_run_reach.
+
+(* non-vacuity: runner + a getter + a copier/dropper; the run ends with the functor executed once, the getter
+   having read the value 7, all references released and the impl deallocated exactly once *)
+Example C18_nonvacuous :
+  wf_init 100 nv_cfg nv_ds /\
+  let '(s, _, st) := run_future 80 nv_cfg nv_ds [0;1;2;0;1;2;0;1;2;0;1;2;0;1;2;0;1;2;0;1;2;0;1;2;0;1;2;0;1;2;0;1;2;0;1;2;0;0;0;0;0;0;0;0;0;0] in
+  st = SDone /\ fcount (sh s) = 1 /\ freed (sh s) = 1 /\ refc (sh s) = 0 /\
+  map (fun th => rev (res th)) (threads s) = [[(r_func, 1)]; [(r_get, 7)]; [(r_wait, 1); (r_dealloc, 1)]].
+Proof. exact nonvacuous_c18. Qed.
